@@ -178,6 +178,8 @@ class C07(Prop):
                 diff = {k: (got.get(k), want.get(k)) for k in set(got) | set(want) if got.get(k) != want.get(k)}
                 return False, f"default_environment() differs from PEP 508's table at (got, expected): {diff}"
             var, val = inp["var"], want[inp["var"]]
+            if var == "python_full_version" and val.endswith("+"):
+                return True, "table compared; evaluation completes a python_full_version ending in '+' (statement), not compared"
             if "'" in val or "\\" in val or "\n" in val or "\r" in val:
                 return True, "value not a PEP 508 single-quoted literal; table compared only"
             m = markers.Marker(f"{var} == '{val}' and '{val}' == {var}")
@@ -319,3 +321,8 @@ PROP = with_src(PROP, share=10, functions=["default_environment"], module=["PkgP
                 theorems=["Src.default_environment_translated", "Src.default_environment_eq_model",
                           "Src.defaultEnvironment_keys", "Src.detectedNames_nodup", "Src.detectedNames_canonical",
                           "Src.python_version_two", "Src.Marker.evaluate_eq_model_detected", "Src.exTable_answers"])
+
+# history-insensitivity on shared objects (harness/histlaw.py): programs over Specifier / SpecifierSet / Requirement / Marker
+# objects; extra read-only calls and work on unrelated objects built from the same texts must not change any answer
+import histlaw  # noqa: E402
+PROP = histlaw.attach(PROP, every=25)
